@@ -130,6 +130,8 @@ func (e *env) config(name string) string {
 	case "F13-htpasswd-user-missing":
 		// the password file lacks the user; the operator adds the user after the failed attempt (see child)
 		return site("F13", "\tbasicauth /priv u htpasswd=htpasswd-late\n")
+	case "F14-casketfile-unreadable":
+		return loaderFails // (only by SIGUSR1: the signal handler asks the loader for the configuration)
 	case "F12-udp-port-in-use":
 		// (with QUIC on every server also opens a UDP socket: the TCP listener of the second site is open when that fails)
 		return site("F12", "") + fmt.Sprintf("127.0.0.1:%d {\n\tstatus 204 /ok\n}\n", e.p3)
@@ -237,6 +239,9 @@ func child(h history) {
 	casket.RegisterCasketfileLoader("verif", casket.LoaderFunc(func(serverType string) (casket.Input, error) {
 		curMu.Lock()
 		defer curMu.Unlock()
+		if curText == loaderFails {
+			return nil, fmt.Errorf("Casketfile cannot be read (injected)") // (the file was deleted or is unreadable)
+		}
 		return casket.CasketfileInput{Contents: []byte(curText), Filepath: filepath.Join(dir, "Casketfile"), ServerTypeName: serverType}, nil
 	}))
 	setCur := func(t string) {
@@ -409,6 +414,9 @@ func runChild(h history) (r childResult, err error) {
 	return
 }
 
+// loaderFails is the text that makes the Casketfile loader of the child report an error.
+const loaderFails = "!the-loader-fails"
+
 // crashErr: the child process was terminated by a panic.
 type crashErr string
 
@@ -469,13 +477,16 @@ func main() {
 		return
 	}
 	rep := kit.NewReport("C08", "model_checking",
-		"every history of <=2 (thorough 3) attempts over {validate, Instance.Restart, real SIGUSR1} x {15 failing configurations (one per failure kind and stage), 5 valid ones}, each followed by each of 5 valid final configurations, one child process per history; after every failed attempt: listening sockets (inodes and descriptor count), running site and event hooks unchanged; the final configuration must load within the backstop and answer a battery exactly as in a fresh process; distinct_nontrivial = distinct histories classes")
-	failing := []string{"F1-syntax", "F2-unknown-directive", "F3-htpasswd-missing", "F3b-htpasswd-malformed", "F4-log-bad-roller", "F5-proxy-bad-second", "F6-tls-missing-cert", "F7-on-after-valid-on", "F8-missing-import", "F9-port-in-use", "F10-startup-callback-fails", "F11-late-setup-error-after-log-and-on", "F12-udp-port-in-use", "F13-htpasswd-user-missing"}
+		"every history of <=2 (thorough 3) attempts over {validate, Instance.Restart, real SIGUSR1} x {16 failing configurations (one per failure kind and stage), 5 valid ones}, each followed by each of 5 valid final configurations, one child process per history; after every failed attempt: listening sockets (inodes and descriptor count), running site and event hooks unchanged; the final configuration must load within the backstop and answer a battery exactly as in a fresh process; distinct_nontrivial = distinct histories classes")
+	failing := []string{"F1-syntax", "F2-unknown-directive", "F3-htpasswd-missing", "F3b-htpasswd-malformed", "F4-log-bad-roller", "F5-proxy-bad-second", "F6-tls-missing-cert", "F7-on-after-valid-on", "F8-missing-import", "F9-port-in-use", "F10-startup-callback-fails", "F11-late-setup-error-after-log-and-on", "F12-udp-port-in-use", "F13-htpasswd-user-missing", "F14-casketfile-unreadable"}
 	valid := []string{"V1-htpasswd", "V2-rolled-log", "V3-on", "V4-two-listeners", "V5-htpasswd-late"}
 	kinds := []string{"validate", "restart", "sigusr1"}
 	var atts []attempt
 	for _, k := range kinds {
 		for _, f := range failing {
+			if strings.HasPrefix(f, "F14-") && k != "sigusr1" {
+				continue
+			}
 			atts = append(atts, attempt{k, f})
 		}
 	}
